@@ -9,6 +9,9 @@
 //! `"BLTE" ‖ 0u32 ‖ 'N' ‖ payload`). Reads use a buffer larger than the payload
 //! and must return `n == len` and identical bytes — in the same instance after
 //! any later writes, and after drop + reopen of the same directory.
+//! Contents recur: a write may store again what is still stored or what was removed earlier (also right after the
+//! removal, also when the removed object was the one written last); objects are addressed by the full encoding key,
+//! by its first nine bytes zero-padded (what index enumeration yields) or by the nine bytes with another tail.
 //!
 //! Re-runnable slices (for sanitizer layers): extra argv
 //!   `--only-history N`   run exactly history N of the current seed/tier
@@ -205,6 +208,8 @@ struct Obj {
 struct Model {
     live: BTreeMap<[u8; 16], Obj>,
     removed: BTreeSet<[u8; 16]>,
+    /// content of the objects that were removed (so that a later write can store the very same content again)
+    removed_content: BTreeMap<[u8; 16], (Vec<u8>, &'static str)>,
     order: Vec<[u8; 16]>,
     writes: usize,
 }
@@ -223,6 +228,51 @@ impl Model {
             }
         }
         Some(**rng.pick(&keys))
+    }
+    /// The object written last, if it is still stored (the tail of the archive it went to).
+    fn latest_live(&self) -> Option<[u8; 16]> {
+        self.order.last().copied().filter(|k| self.live.contains_key(k))
+    }
+    fn forget(&mut self, k: &[u8; 16]) {
+        if let Some(o) = self.live.remove(k) {
+            self.removed_content.insert(*k, (o.payload, o.class));
+        }
+        self.order.retain(|x| x != k);
+        self.removed.insert(*k);
+    }
+}
+
+/// The forms in which a caller can hold the key of a stored object. The local index (KMT) works with the first nine
+/// bytes of an encoding key, and that is all its enumeration hands out: a caller that learned a key there passes the
+/// nine bytes zero-padded to sixteen (the crate's own container tests do); a caller that knows the encoding key
+/// passes all sixteen; the third form carries the nine bytes and a different tail.
+const KEY_FORMS: [&str; 3] = ["full", "nine-bytes-zero-padded", "nine-bytes-other-tail"];
+
+fn key_in_form(rng: &mut Rng, k: &[u8; 16], form: &str) -> [u8; 16] {
+    match form {
+        "full" => *k,
+        "nine-bytes-zero-padded" => {
+            let mut t = [0u8; 16];
+            t[..9].copy_from_slice(&k[..9]);
+            t
+        }
+        _ => {
+            let mut t = *k;
+            let tail = rng.array::<7>();
+            t[9..].copy_from_slice(&tail);
+            if t == *k {
+                t[15] ^= 0x80;
+            }
+            t
+        }
+    }
+}
+
+fn pick_key_form(rng: &mut Rng) -> &'static str {
+    match rng.below(4) {
+        0 | 1 => KEY_FORMS[0],
+        2 => KEY_FORMS[1],
+        _ => KEY_FORMS[2],
     }
 }
 
@@ -604,9 +654,7 @@ fn dyn_access_phase(h: &mut Hist<'_>, rt: &tokio::runtime::Runtime, root: &Path,
             (Ok(()), true) => h.stats.add(&format!("dynamic.mode_{mn}.remove.ok_object_kept"), 1),
             (Ok(()), false) => {
                 h.stats.add(&format!("dynamic.mode_{mn}.remove.ok_object_removed"), 1);
-                m.live.remove(&k);
-                m.order.retain(|x| x != &k);
-                m.removed.insert(k);
+                m.forget(&k);
             }
         }
     }
@@ -665,6 +713,56 @@ fn dyn_check_absent(h: &mut Hist<'_>, rt: &tokio::runtime::Runtime, c: &DynamicC
     }
 }
 
+/// One `write` through the container and the bookkeeping of the model: after `Ok` the object must be found under
+/// its (independently derived) encoding key. Returns whether the object is stored now.
+#[allow(clippy::too_many_arguments)]
+fn dyn_write_op(h: &mut Hist<'_>, rt: &tokio::runtime::Runtime, c: &DynamicContainer, store: &Path, m: &mut Model, known9: &mut BTreeSet<[u8; 9]>, payload: Vec<u8>, class: &'static str, how: &str, rng: &mut Rng) -> bool {
+    let passed_key: [u8; 16] = rng.array::<16>();
+    h.log(format!("write#{} class={class} len={} md5={} ({how})", m.writes, payload.len(), hex::encode(&md5::compute(&payload).0[..4])));
+    h.stats.add("dynamic.ops.write", 1);
+    h.stats.add(&format!("dynamic.write.content={how}"), 1);
+    h.stats.add(&format!("payload_class.{class}"), 1);
+    h.stats.max("max_payload_len", payload.len() as u64);
+    match rt.block_on(c.write(&passed_key, &payload)) {
+        Ok(()) => {
+            h.stats.add("bytes_written", payload.len() as u64);
+            let mut ekey = derive_ekey(&payload);
+            // key derivation check: the derived key must be present now
+            match rt.block_on(c.query(&ekey)) {
+                Ok(true) => h.stats.add("key_derivation.agrees", 1),
+                _ => {
+                    let unknown = locate_unknown_keys_dynamic(rt, store, known9);
+                    if unknown.len() == 1 {
+                        h.stats.add("key_derivation.differs", 1);
+                        ekey = [0u8; 16];
+                        ekey[..9].copy_from_slice(&unknown[0]);
+                    } else {
+                        let sig = if how == "new" { "C04|DynamicContainer::write|ok-but-object-not-indexed".to_string() } else { format!("C04|DynamicContainer::write|ok-but-object-not-indexed|content-written-{how}") };
+                        h.violation(
+                            sig,
+                            "write() returned Ok but neither the derived encoding key nor any new index entry exists",
+                            json!({"derived_ekey": hex::encode(ekey), "len": payload.len(), "class": class, "new_index_entries": unknown.len(), "content": how}),
+                        );
+                        return false;
+                    }
+                }
+            }
+            known9.insert(k9(&ekey));
+            m.removed.remove(&ekey);
+            m.order.retain(|k| k != &ekey);
+            m.order.push(ekey);
+            m.live.insert(ekey, Obj { payload, class, epoch: h.epoch, write_no: m.writes });
+            m.writes += 1;
+            true
+        }
+        Err(e) => {
+            // a refused write is not a C04 violation (nothing was promised); record it
+            h.stats.add(&format!("dynamic.write.err.{}", err_label(&e)), 1);
+            false
+        }
+    }
+}
+
 fn run_dynamic(ctx: &Ctx, idx: usize, variant: usize, rng: &mut Rng) -> Result<(), String> {
     let rt = tokio::runtime::Builder::new_current_thread().enable_all().build().map_err(|e| e.to_string())?;
     let (td, fs_kind) = mk_tempdir(idx).map_err(|e| format!("tempdir: {e}"))?;
@@ -707,53 +805,20 @@ fn run_dynamic(ctx: &Ctx, idx: usize, variant: usize, rng: &mut Rng) -> Result<(
             // ---- write
             let class: &'static str = if rng.chance(1, 4) { *rng.pick(EXTRA_CLASSES) } else { *rng.pick(genx::PAYLOAD_CLASSES) };
             let n = sizes.next(rng);
-            // occasionally re-write an earlier payload (same key, second copy in the archive)
-            let payload = if rng.chance(1, 12) && !m.live.is_empty() {
+            // occasionally re-write an earlier payload (same key, second copy in the archive), or store again the
+            // content of an object that was removed earlier in the history
+            let (payload, class, how) = if rng.chance(1, 12) && !m.live.is_empty() {
                 let k = m.pick_live(rng, false).unwrap_or([0; 16]);
-                m.live.get(&k).map(|o| o.payload.clone()).unwrap_or_default()
+                m.live.get(&k).map(|o| (o.payload.clone(), o.class, "again-while-stored")).unwrap_or_default()
+            } else if rng.chance(1, 10) && m.removed_content.keys().any(|k| !m.live.contains_key(k)) {
+                let ks: Vec<&[u8; 16]> = m.removed_content.keys().filter(|k| !m.live.contains_key(*k)).collect();
+                let k = **rng.pick(&ks);
+                let (p, c) = m.removed_content[&k].clone();
+                (p, c, "again-after-remove")
             } else {
-                make_payload(rng, class, n)
+                (make_payload(rng, class, n), class, "new")
             };
-            let passed_key: [u8; 16] = rng.array::<16>();
-            h.log(format!("write#{} class={class} len={} md5={}", m.writes, payload.len(), hex::encode(&md5::compute(&payload).0[..4])));
-            h.stats.add("dynamic.ops.write", 1);
-            h.stats.add(&format!("payload_class.{class}"), 1);
-            h.stats.max("max_payload_len", payload.len() as u64);
-            match rt.block_on(bundle.c.write(&passed_key, &payload)) {
-                Ok(()) => {
-                    h.stats.add("bytes_written", payload.len() as u64);
-                    let mut ekey = derive_ekey(&payload);
-                    // key derivation check: the derived key must be present now
-                    match rt.block_on(bundle.c.query(&ekey)) {
-                        Ok(true) => h.stats.add("key_derivation.agrees", 1),
-                        _ => {
-                            let unknown = locate_unknown_keys_dynamic(&rt, &store, &known9);
-                            if unknown.len() == 1 {
-                                h.stats.add("key_derivation.differs", 1);
-                                ekey = [0u8; 16];
-                                ekey[..9].copy_from_slice(&unknown[0]);
-                            } else {
-                                h.violation(
-                                    "C04|DynamicContainer::write|ok-but-object-not-indexed".to_string(),
-                                    "write() returned Ok but neither the derived encoding key nor any new index entry exists",
-                                    json!({"derived_ekey": hex::encode(ekey), "len": payload.len(), "class": class, "new_index_entries": unknown.len()}),
-                                );
-                                continue;
-                            }
-                        }
-                    }
-                    known9.insert(k9(&ekey));
-                    m.removed.remove(&ekey);
-                    m.order.retain(|k| k != &ekey);
-                    m.order.push(ekey);
-                    m.live.insert(ekey, Obj { payload, class, epoch: h.epoch, write_no: m.writes });
-                    m.writes += 1;
-                }
-                Err(e) => {
-                    // a refused write is not a C04 violation (nothing was promised); record it
-                    h.stats.add(&format!("dynamic.write.err.{}", err_label(&e)), 1);
-                }
-            }
+            dyn_write_op(&mut h, &rt, &bundle.c, &store, &mut m, &mut known9, payload, class, how, rng);
         } else if r < 68 {
             // ---- read (prefer a non-latest key)
             let Some(k) = m.pick_live(rng, true) else { continue };
@@ -775,6 +840,22 @@ fn run_dynamic(ctx: &Ctx, idx: usize, variant: usize, rng: &mut Rng) -> Result<(
                 dyn_short_read(&mut h, &rt, &bundle.c, &k, o, kind);
                 continue;
             }
+            if rng.chance(1, 6) {
+                // the key in one of the other forms a caller can hold it in: whatever such a read hands back must be
+                // the object (no other stored object has these nine bytes); whether it finds it is left open
+                let form = KEY_FORMS[1 + rng.usize_below(2)];
+                let passed = key_in_form(rng, &k, form);
+                h.log(format!("  (key={form})"));
+                h.stats.add(&format!("dynamic.ops.read.key={form}"), 1);
+                match dyn_read(&rt, &bundle.c, &passed, o.payload.len(), extra) {
+                    Ok(got) => {
+                        h.stats.add(&format!("dynamic.read.key={form}.ok"), 1);
+                        check_read_result(&mut h, &format!("DynamicContainer::read|key={form}"), &k, o, Ok(got), extra);
+                    }
+                    Err(e) => h.stats.add(&format!("dynamic.read.key={form}.err.{}", err_label(&e)), 1),
+                }
+                continue;
+            }
             let res = dyn_read(&rt, &bundle.c, &k, o.payload.len(), extra);
             let o = m.live.get(&k).ok_or("model lost key")?;
             check_read_result(&mut h, "DynamicContainer::read", &k, o, res, extra);
@@ -784,6 +865,13 @@ fn run_dynamic(ctx: &Ctx, idx: usize, variant: usize, rng: &mut Rng) -> Result<(
             if rng.bool() && !m.live.is_empty() {
                 let k = m.pick_live(rng, false).unwrap_or([0; 16]);
                 h.log(format!("query live {}", hex::encode(&k[..4])));
+                if rng.chance(1, 4) {
+                    // recorded only: the statement does not say what a query through another key form answers
+                    let form = KEY_FORMS[1 + rng.usize_below(2)];
+                    let passed = key_in_form(rng, &k, form);
+                    let ans = rt.block_on(bundle.c.query(&passed)).map_or("err".to_string(), |b| b.to_string());
+                    h.stats.add(&format!("dynamic.query.key={form}.{ans}"), 1);
+                }
                 match rt.block_on(bundle.c.query(&k)) {
                     Ok(true) => h.stats.add("dynamic.query_true_for_live", 1),
                     Ok(false) => {
@@ -800,18 +888,50 @@ fn run_dynamic(ctx: &Ctx, idx: usize, variant: usize, rng: &mut Rng) -> Result<(
                 }
             }
         } else if r < 84 {
-            // ---- remove
-            let Some(k) = m.pick_live(rng, false) else { continue };
-            h.log(format!("remove {}", hex::encode(&k[..4])));
+            // ---- remove: any stored object, half of the time the one written last (the tail of its archive); the key
+            // in any of the forms a caller can hold it in
+            let k = if rng.bool() { m.latest_live() } else { None }.or_else(|| m.pick_live(rng, false));
+            let Some(k) = k else { continue };
+            let was_latest = m.latest_live() == Some(k);
+            let form = pick_key_form(rng);
+            let passed = key_in_form(rng, &k, form);
+            h.log(format!("remove {} key={form} latest_written={was_latest}", hex::encode(&k[..4])));
             h.stats.add("dynamic.ops.remove", 1);
-            match rt.block_on(bundle.c.remove(&k)) {
+            h.stats.add(&format!("dynamic.ops.remove.key={form}"), 1);
+            if was_latest {
+                h.stats.add("dynamic.ops.remove.of_latest_written", 1);
+            }
+            let mut gone = false;
+            match rt.block_on(bundle.c.remove(&passed)) {
                 Ok(()) => {
-                    m.live.remove(&k);
-                    m.order.retain(|x| x != &k);
-                    m.removed.insert(k);
-                    dyn_check_absent(&mut h, &rt, &bundle.c, &k, "removed");
+                    // through the full key the object is removed. Whether one of the other key forms designates the
+                    // object for removal is not what the property decides: the model follows what the store shows
+                    // under the full key, and everything afterwards is judged against that
+                    gone = form == "full" || matches!(rt.block_on(bundle.c.query(&k)), Ok(false));
+                    h.stats.add(&format!("dynamic.remove.key={form}.{}", if gone { "object_removed" } else { "object_kept" }), 1);
+                    if gone {
+                        m.forget(&k);
+                        dyn_check_absent(&mut h, &rt, &bundle.c, &k, "removed");
+                    }
                 }
                 Err(e) => h.stats.add(&format!("dynamic.remove.err.{}", err_label(&e)), 1),
+            }
+            // short-lived objects: written, consumed, removed - and written again right away (half of the removals);
+            // from that write on the object has to stay readable like any other
+            if gone && rng.bool() {
+                if let Some((payload, class)) = m.removed_content.get(&k).cloned() {
+                    h.stats.add("dynamic.ops.remove_then_write_again", 1);
+                    if was_latest {
+                        h.stats.add("dynamic.ops.remove_then_write_again.of_latest_written", 1);
+                    }
+                    if dyn_write_op(&mut h, &rt, &bundle.c, &store, &mut m, &mut known9, payload, class, "again-right-after-remove", rng) {
+                        if let Some(o) = m.live.get(&k) {
+                            let res = dyn_read(&rt, &bundle.c, &k, o.payload.len(), 16);
+                            h.stats.add("dynamic.ops.read", 1);
+                            check_read_result(&mut h, "DynamicContainer::read", &k, o, res, 16);
+                        }
+                    }
+                }
             }
         } else if r < 88 {
             let b = rng.below(16) as u8;
@@ -1970,7 +2090,7 @@ fn redirect_stderr() {
 
 fn main() {
     let ctx = Ctx::init("C04", "exploration");
-    ctx.set_rule("a case is one seeded history of 5-60 operations (write/read/query/remove/flush/drop+reopen) against DynamicContainer (plain, residency, LRU, both) or Installation in its own directory; non-trivial = at least 2 successful writes followed by at least one read of a key that is not the latest written; distinct by hash of the executed operation trace (operation, payload class, length, payload digest)");
+    ctx.set_rule("a case is one seeded history of 5-60 operations (write of new content / of content still stored / of content removed earlier, read/query/remove through the full or the nine-byte key, remove-then-write-again, flush, drop+reopen) against DynamicContainer (plain, residency, LRU, both) or Installation in its own directory; non-trivial = at least 2 successful writes followed by at least one read of a key that is not the latest written; distinct by hash of the executed operation trace (operation, payload class, length, payload digest)");
     ctx.assume("the harness-side encoding-key derivation MD5(\"BLTE\" || 0u32 || 'N' || payload) matches the key the storage indexes an object under (checked on every write through query/has_encoding_key; disagreement falls back to the index enumeration and is reported as key_derivation.differs)");
     ctx.assume("tempfile directories on /dev/shm (tmpfs) and on the default temp dir behave like the file systems the library targets");
     redirect_stderr();
@@ -2077,6 +2197,13 @@ fn main() {
             "dynamic.ops.reopen_access_mode.Exclusive",
             "dynamic.ops.reserve",
             "dynamic.ops.remove_span",
+            "dynamic.ops.remove.key=full",
+            "dynamic.ops.remove.key=nine-bytes-zero-padded",
+            "dynamic.ops.remove.key=nine-bytes-other-tail",
+            "dynamic.ops.remove.of_latest_written",
+            "dynamic.ops.remove_then_write_again.of_latest_written",
+            "dynamic.write.content=again-after-remove",
+            "dynamic.ops.read.key=nine-bytes-zero-padded",
             "histories.dynamic.ctor.new",
             "histories.dynamic.non_default_configuration",
             "truncated_history.runs",
